@@ -469,6 +469,17 @@ pub struct Report {
     pub profile_models: Vec<ModelStats>,
 }
 
+/// where scratch output goes (replays, evidence, child scratch, the per-backend tools): /verif, or the directory named
+/// by VERIF_LANE when the same harness is run a second time side by side (regression of the seeded changes against a
+/// scratch copy of the repository); the committed inputs (known findings, golden corpus, vectors) are always read from /verif
+pub fn lane() -> String {
+    std::env::var("VERIF_LANE").unwrap_or_else(|_| "/verif".to_string())
+}
+/// the repository whose sources the registry self-check parses
+pub fn repo_dir() -> String {
+    std::env::var("VERIF_REPO").unwrap_or_else(|_| "/repo".to_string())
+}
+
 pub const CHECKED_SUFFIX: &str = " [checked profile]";
 
 /// what a second-profile child hands back to its parent
@@ -676,9 +687,9 @@ impl Report {
         }
         let mut known_hit: Vec<String> = vec![];
         let mut new_keys: Vec<(String, String)> = vec![];
-        let _ = std::fs::create_dir_all("/verif/replays");
+        let _ = std::fs::create_dir_all(format!("{}/replays", lane()));
         // replay files of earlier runs of this property are stale
-        if let Ok(rd) = std::fs::read_dir("/verif/replays") {
+        if let Ok(rd) = std::fs::read_dir(format!("{}/replays", lane())) {
             for e in rd.flatten() {
                 if e.file_name().to_string_lossy().starts_with(&format!("{}-", self.property)) {
                     let _ = std::fs::remove_file(e.path());
@@ -705,7 +716,7 @@ impl Report {
             let mut h = Sha256::new();
             h.update(key.as_bytes());
             let dg = hex::encode(&h.finalize()[..6]);
-            let path = format!("/verif/replays/{}-{}.json", self.property, dg);
+            let path = format!("{}/replays/{}-{}.json", lane(), self.property, dg);
             let doc = serde_json::json!({
                 "property": self.property,
                 "model": rep.model,
@@ -777,14 +788,14 @@ impl Report {
             "wall_s": wall,
             "violations": new_keys.len(),
         });
-        let _ = std::fs::create_dir_all("/verif/evidence");
+        let _ = std::fs::create_dir_all(format!("{}/evidence", lane()));
         // experiments (other seeds, seeded changes applied to /repo) write their evidence aside
         let evp = match std::env::var("VERIF_EVIDENCE_DIR") {
             Ok(d) => {
                 let _ = std::fs::create_dir_all(&d);
                 format!("{}/{}.json", d, self.property)
             }
-            Err(_) => format!("/verif/evidence/{}.json", self.property),
+            Err(_) => format!("{}/evidence/{}.json", lane(), self.property),
         };
         if let Err(e) = std::fs::write(&evp, serde_json::to_string_pretty(&ev).unwrap()) {
             eprintln!("cannot write evidence {}: {}", evp, e);
